@@ -9,7 +9,6 @@ import (
 	"time"
 
 	"net/http"
-	"net/netip"
 
 	"github.com/pkg/errors"
 	"github.com/ysugimoto/falco/v2/interpreter/context"
@@ -132,7 +131,7 @@ func (v *DeliverScopeVariables) Get(s context.Scope, name string) (value.Value, 
 	case REQ_ESI_LEVEL:
 		return v.ctx.ESILevel, nil
 	case REQ_IS_IPV6:
-		parsed, err := netip.ParseAddr(v.ctx.Request.RemoteAddr)
+		parsed, err := parseRemoteAddr(v.ctx.Request.RemoteAddr)
 		if err != nil {
 			return value.Null, errors.WithStack(fmt.Errorf(
 				"could not parse remote address",
